@@ -9,13 +9,14 @@
                  enabled is skipped; after the schedule the run is completed by a
                  fixed policy (close / disconnect as soon as possible, then whatever
                  is enabled) so that every case ends
-   observation: ( out ) outcome ( gst begun ) nexts cleanup closes left ( pa ta na )
+   observation: ( out ) outcome ( gst begun ) nexts cleanup closes left ( pa ta na ) closed
      out       chunks handed to the server: item index, -1 ping, -2 final empty body
      outcome   return | closed | raise | deadlock | running
      gst       0 generator never started nor closed, 1 still suspended / running, 2 finished
      begun     1 when the generator's body was ever entered
      left      relay thread / tasks not finished at the end
      pa ta na  after the close / disconnect: producer answers, timer expiries, all steps
+     closed    1 when the server closed the iterable / the client disconnected during the run
    enumeration: 9 kind ( n ending ) depth   ->  all maximal schedules of enabled
      choices up to that depth (used by the harness to generate its cases) *)
 From Coq Require Import List NArith ZArith Bool Arith.
@@ -112,9 +113,9 @@ Definition show_gst (g : gstate) : sx :=
 Definition show_outcome (o : outcome) : sx :=
   match o with OReturn => tag (lit "return") | OClosed => tag (lit "closed") | ORaise => tag (lit "raise") end.
 
-Definition show_obs (out : list chunk) (o : sx) (g : gen) (left : nat) (p t n : nat) : list sx :=
+Definition show_obs (out : list chunk) (o : sx) (g : gen) (left : nat) (p t n : nat) (closed : bool) : list sx :=
   [ Lst (map show_chunk out); o; Lst [show_gst (gst g); of_bool (begun g)]; of_nat (nexts g);
-    of_nat (cleanup g); of_nat (closes g); of_nat left; Lst [of_nat p; of_nat t; of_nat n] ].
+    of_nat (cleanup g); of_nat (closes g); of_nat left; Lst [of_nat p; of_nat t; of_nat n]; of_bool closed ].
 
 Definition stuck (stopped : bool) : sx :=
   if stopped then tag (lit "deadlock") else tag (lit "running").
@@ -126,14 +127,14 @@ Definition run_S (prod : producer) (sch : list nat) : list sx :=
                          (exec (coarseS prod) (fun _ _ => 0) (Nat.eqb 2) sch s_init) in
   let s := ac_s a in
   show_obs (s_out s) (match s_pc s with SEnd o => show_outcome o | _ => stuck stopped end)
-           (s_g s) 0 (ac_p a) (ac_t a) (ac_n a).
+           (s_g s) 0 (ac_p a) (ac_t a) (ac_n a) (ac_closed a).
 
 Definition run_W (fixed : bool) (prod : producer) (sch : list nat) : list sx :=
   let '(a, stopped) := complete (coarseW fixed prod) w_kind (Nat.eqb 2) (w_policy fixed prod) FUEL
                          (exec (coarseW fixed prod) w_kind (Nat.eqb 2) sch w_init) in
   let s := ac_s a in
   show_obs (wout s) (match wcp s with CEnd o => show_outcome o | _ => stuck stopped end)
-           (wg s) (if p_finished (wpp s) then 0 else 1) (ac_p a) (ac_t a) (ac_n a).
+           (wg s) (if p_finished (wpp s) then 0 else 1) (ac_p a) (ac_t a) (ac_n a) (ac_closed a).
 
 (* W with an exhausted pool *)
 Definition wsat_policy (fixed : bool) (prod : producer) (s : wstate) : option nat :=
@@ -143,21 +144,21 @@ Definition run_Wsat (fixed : bool) (prod : producer) (sch : list nat) : list sx 
                          (exec (coarseWsat fixed prod) w_kind (Nat.eqb 2) sch w_init) in
   let s := ac_s a in
   show_obs (wout s) (match wcp s with CEnd o => show_outcome o | _ => stuck stopped end)
-           (wg s) (if p_finished (wpp s) then 0 else 1) (ac_p a) (ac_t a) (ac_n a).
+           (wg s) (if p_finished (wpp s) then 0 else 1) (ac_p a) (ac_t a) (ac_n a) (ac_closed a).
 
 Definition run_A (prod : producer) (sch : list nat) : list sx :=
   let '(a, stopped) := complete (coarseA prod) a_kind (Nat.eqb 3) (a_policy prod) FUEL
                          (exec (coarseA prod) a_kind (Nat.eqb 3) sch a_init) in
   let s := ac_s a in
   show_obs (a_out s) (match a_m s with AMDone o => show_outcome o | _ => stuck stopped end)
-           (a_g s) (w_unfinished (a_w s) (a_ww s)) (ac_p a) (ac_t a) (ac_n a).
+           (a_g s) (w_unfinished (a_w s) (a_ww s)) (ac_p a) (ac_t a) (ac_n a) (ac_closed a).
 
 Definition run_E (prod : producer) (sch : list nat) : list sx :=
   let '(a, stopped) := complete (coarseE prod) e_kind (Nat.eqb 3) (e_policy prod) FUEL
                          (exec (coarseE prod) e_kind (Nat.eqb 3) sch e_init) in
   let s := ac_s a in
   show_obs (e_out s) (match e_m s with EMDone o => show_outcome o | _ => stuck stopped end)
-           (e_g s) (w_unfinished (e_w s) (e_ww s) + r_unfinished (e_r s)) (ac_p a) (ac_t a) (ac_n a).
+           (e_g s) (w_unfinished (e_w s) (e_ww s) + r_unfinished (e_r s)) (ac_p a) (ac_t a) (ac_n a) (ac_closed a).
 
 Definition show_scheds (l : list (list nat)) : list sx :=
   map (fun sch => Lst (map of_nat sch)) l.
